@@ -570,7 +570,8 @@ Definition vresolve (nodes : list ventry) (ar : nat) (mu : nat -> R) (i : nat) :
   | [] => 0
   | _ :: _ =>
       match @reduce_max RNum (vpayoffs mu (vmine nodes i) ar) with
-      | Some m => m / Rsum (map e_p (vmine nodes i))
+      | Some m => if Rltb 0 (Rsum (map e_p (vmine nodes i)))
+                  then m / Rsum (map e_p (vmine nodes i)) else 0
       | None => 0
       end
   end.
@@ -579,7 +580,8 @@ Lemma vresolve_nonempty nodes ar mu i :
   vmine nodes i <> [] ->
   vresolve nodes ar mu i =
   match @reduce_max RNum (vpayoffs mu (vmine nodes i) ar) with
-  | Some m => m / Rsum (map e_p (vmine nodes i))
+  | Some m => if Rltb 0 (Rsum (map e_p (vmine nodes i)))
+              then m / Rsum (map e_p (vmine nodes i)) else 0
   | None => 0
   end.
 Proof. unfold vresolve. destruct (vmine nodes i); [congruence|reflexivity]. Qed.
@@ -730,7 +732,7 @@ Section Core.
     { intros C. pose proof (pays_length j) as L. rewrite C in L. cbn in L.
       pose proof (Hars j Hj). lia. }
     rewrite (reduce_max_argmax _ Hp), map_map. cbn [forget e_p snd].
-    pose proof (total_pos j Hne) as Ht. unfold Rdiv. rewrite Rmult_assoc, Rinv_l; [apply Rmult_1_r|apply Rgt_not_eq; exact Ht].
+    pose proof (total_pos j Hne) as Ht. change (fun x : dn => d_rho x) with d_rho. rewrite (proj2 (Rltb_true _ _) Ht). unfold Rdiv. rewrite Rmult_assoc, Rinv_l; [apply Rmult_1_r|apply Rgt_not_eq; exact Ht].
   Qed.
 
   (** one step of the telescope, for any [tau] *)
@@ -1339,7 +1341,10 @@ Section Resolve.
       rewrite (search_view chance so me Hso mu k). cbn [add mul one zero RNum]. lra. }
     rewrite Ep.
     destruct (@reduce_max RNum (vpayoffs mu (map vliftc mine) ar)) as [m|]; [|reflexivity].
-    cbn [div RNum]. f_equal. rewrite sum_Rsum, !map_map. reflexivity.
+    assert (Et : @sum RNum (map (fun e : nat * (list node * R) => snd (snd e)) mine)
+                 = Rsum (map e_p (map vliftc mine))).
+    { rewrite sum_Rsum, !map_map. reflexivity. }
+    cbn [T RNum] in Et. cbn [div ltb zero RNum]. rewrite Et. reflexivity.
   Qed.
 
   (** *** the table computed by [resolve_from] *)
@@ -1711,7 +1716,7 @@ Proof.
   intros Hx. unfold info, expected, br_value, mp_prof, mp_game.
   do 3 (cbn -[Rltb]; rewrite ?Rltb_0_1, ?Rltb_0_0).
   replace (0 + 1) with 1 by lra. replace (0 + 1 * 1) with 1 by lra.
-  unfold Rdiv. rewrite !Rinv_1. unfold Rmax.
+  rewrite ?Rltb_0_1. unfold Rdiv. rewrite !Rinv_1. unfold Rmax.
   repeat split; repeat (destruct (Rle_dec _ _)); lra.
 Qed.
 
